@@ -214,21 +214,28 @@ func runE2E(p *pki, mock *sdsMock, groups []*group, upCases []tcase, out string,
 			for j := range work {
 				// update histories go through the listener update of the running MOSN (handler.go AddOrUpdateListener)
 				var err error
-				for _, u := range j.g.upds {
-					var ev vh.Ev
-					ev, err = lives[j.i].apply(u, func() error {
-						ln := mkListener(j.i)
-						a, e := net.ResolveTCPAddr("tcp", addrs[j.i])
-						if e != nil {
-							return e
-						}
-						ln.Addr = a
-						return server.GetListenerAdapterInstance().AddOrUpdateListener("", &ln)
-					})
-					if err != nil {
-						break
+				reconfigure := func() error {
+					ln := mkListener(j.i)
+					a, e := net.ResolveTCPAddr("tcp", addrs[j.i])
+					if e != nil {
+						return e
 					}
-					j.g.events = append(j.g.events, ev)
+					ln.Addr = a
+					return server.GetListenerAdapterInstance().AddOrUpdateListener("", &ln)
+				}
+				if j.g.race { // SDS rotation and listener update in two goroutines, in the order of the schedule
+					var evs []vh.Ev
+					evs, err = lives[j.i].raceUpdates(reconfigure)
+					j.g.events = append(j.g.events, evs...)
+				} else {
+					for _, u := range j.g.upds {
+						var ev vh.Ev
+						ev, err = lives[j.i].apply(u, reconfigure)
+						if err != nil {
+							break
+						}
+						j.g.events = append(j.g.events, ev)
+					}
 				}
 				if err == nil {
 					err = w.hellos(j.g, nil, addrs[j.i])
@@ -263,14 +270,10 @@ func runE2E(p *pki, mock *sdsMock, groups []*group, upCases []tcase, out string,
 		tc := job.tc
 		// the first secrets of an SDS backed cluster, then the update history: cluster updates of the running MOSN
 		upLives[j].deliver()
-		upds := []vh.Ev{}
-		for _, upd := range tc.Upds {
-			uev, err := upLives[j].apply(upd, func(cfg *v2.TLSConfig) error {
-				return cluster.GetClusterMngAdapterInstance().TriggerClusterAddOrUpdate(mkCluster(j, cfg))
-			})
-			vh.Must(err, "e2e cluster update")
-			upds = append(upds, uev)
-		}
+		upds, err := upLives[j].history(tc, func(cfg *v2.TLSConfig) error {
+			return cluster.GetClusterMngAdapterInstance().TriggerClusterAddOrUpdate(mkCluster(j, cfg))
+		})
+		vh.Must(err, "e2e cluster update")
 		srvAddr := upAddr[j]
 		plainMu.Lock()
 		before := plainSeen[srvAddr]
